@@ -268,6 +268,60 @@ func TestC14(t *testing.T) {
 		}
 	})
 
+	// the trust anchors change between two connections (the issuer is no longer in RootCAs):
+	// "succeeds only if the chain verifies against RootCAs" holds for resumed sessions too
+	{
+		var rootsOK, rootsResumed int64
+		for _, tg := range targets {
+			if tg.Pre != nil {
+				continue
+			}
+			for _, maxv := range []uint16{tls.VersionTLS12, tls.VersionTLS13} {
+				ch, err := tg.Probe("example.test")
+				if err != nil {
+					continue
+				}
+				o := OfferOf(ch, targetMinVersion(tg))
+				if !o.Has(maxv) || (maxv == tls.VersionTLS13 && len(o.Suites13) == 0) || (maxv == tls.VersionTLS12 && len(o.Suites12) == 0) {
+					continue
+				}
+				scfg := peer.ServerConfig()
+				scfg.MaxVersion = maxv
+				scfg.Certificates = []tls.Certificate{leaves["valid"]}
+				cache := tls.NewLRUClientSessionCache(4)
+				base := func(c *tls.Config) {
+					c.ServerName = "good.example.test"
+					c.ClientSessionCache = cache
+					c.PreferSkipResumptionOnNilExtension = true
+					c.Time = func() time.Time { return now }
+				}
+				if h0 := RunCase(tg, GridCase{Server: scfg}, "good.example.test", base, peer.Opts{}); !h0.OK() {
+					continue
+				}
+				h := RunCase(tg, GridCase{Server: scfg}, "good.example.test", func(c *tls.Config) {
+					base(c)
+					c.RootCAs = f.OtherCA.Pool // the issuer of the server's chain is not trusted any more
+				}, peer.Opts{})
+				if h.ClientErr == nil {
+					resumed := h.CState.DidResume
+					if resumed {
+						rootsResumed++
+					}
+					// F55 (known): one signature for the class "resumed although the chain no longer verifies against RootCAs"
+					sig := map[string]string{"kind": "invalid_certificate_accepted", "class": "resumed_session_chain_not_reverified_against_current_roots"}
+					if !resumed {
+						sig = map[string]string{"kind": "invalid_certificate_accepted", "cert": "issuer-untrusted", "mode": "fresh", "target": family(tg.Name)}
+					}
+					r.Violation(sig, fmt.Sprintf("%s (%#04x): the issuer was removed from RootCAs and the handshake still succeeded (resumed=%v)", tg.Name, maxv, resumed), map[string]any{"target": tg.Name, "version": maxv})
+				} else {
+					rootsOK++
+				}
+				r.Case(fmt.Sprintf("roots-changed|%s|%04x|%v", family(tg.Name), maxv, h.ClientErr == nil), true)
+			}
+		}
+		r.Count("roots_changed_refused", rootsOK)
+		r.Count("roots_changed_resumed_anyway", rootsResumed)
+	}
 	// ECH: accepted -> verify against the secret name; rejected -> against the public name
 	echTargets := echCapableTargets()
 	// the same parrots as hand-written specs whose server_name extension names a host of the
